@@ -251,8 +251,8 @@ Definition no_edge (p : char -> bool) (s : str) : Prop := stops p s /\ stops p (
 
 Lemma strip_by_id p s : no_edge p s -> strip_by p s = s.
 Proof.
-  intros [H1 H2]. unfold strip_by, rstrip_by. rewrite !lstrip_is_drop.
-  rewrite (drop_while_stops_id p s H1), (drop_while_stops_id p (rev s) H2). apply rev_involutive.
+  intros [H1 H2]. unfold strip_by, rstrip_by. rewrite (lstrip_is_drop p s), (drop_while_stops_id p s H1).
+  rewrite (lstrip_is_drop p (rev s)), (drop_while_stops_id p (rev s) H2). apply rev_involutive.
 Qed.
 
 Lemma rstrip_decomp p t : exists k, t = rstrip_by p t ++ k /\ forallb p k = true /\ stops p (rev (rstrip_by p t)).
@@ -297,11 +297,15 @@ Proof.
     rewrite E. unfold rstrip_by. rewrite lstrip_is_drop, rev_app_distr, drop_while_app; [apply rev_involutive|rewrite forallb_rev; assumption|assumption].
 Qed.
 
+Lemma stops_all_not p s : forallb (fun c => negb (p c)) s = true -> stops p s.
+Proof.
+  destruct s as [|c r]; [intros; exact I|]. simpl. intros H. apply andb_true_iff in H. destruct H as [H _].
+  apply negb_true_iff. assumption.
+Qed.
+
 Lemma no_edge_all_not p s : forallb (fun c => negb (p c)) s = true -> no_edge p s.
 Proof.
-  intros H. split.
-  - destruct s as [|c r]; [exact I|]. simpl in *. apply andb_true_iff in H. destruct H as [H _]. apply negb_true_iff. assumption.
-  - rewrite <- forallb_rev in H. destruct (rev s) as [|c r]; [exact I|]. simpl in *. apply andb_true_iff in H. destruct H as [H _]. apply negb_true_iff. assumption.
+  intros H. split; apply stops_all_not; [assumption|]. rewrite forallb_rev. assumption.
 Qed.
 
 (* ================================================================== find_after / find_class *)
